@@ -10,7 +10,9 @@ Hypotheses used below:
 * `WF s`          — unique fact ids, no variable-looking id, and (indexed state) the term index lists every stored
                     fact under each of its terms, id lists without duplicates; holds for every reachable state
                     (`reachable_wf`);
-* `NoneExpired s now` — no stored fact is expired at `now` (expiry purges interleave another cascade);
+* `NoneExpiredBut s id now` — no stored fact *other than the root `id`* is expired at `now` (an expired dependent
+                    would start another cascade in the middle of this one); this covers `Rem id` on a state
+                    without expired facts (`NoneExpired.but`) and the deletion of `id` triggered by its own expiry;
 * `isVar id = false`  — the root id is not variable-looking (known finding: such an id is a pattern variable);
 * `UnindexOK s`   — (indexed state, only for "rem does not fail") every stored rule can leave the pattern index. -/
 
@@ -47,11 +49,11 @@ theorem closure_is_least (F : List (String × Obj)) (roots : List String) (X : S
 
 /-- a reachable indexed state on which the budget `6·|facts|+12` of `St.fuel` is too small: nine ids that were
 added with `deleteWith:["x"]`, overwritten, then removed stay (stale) in the term index under `deleteWith` and `x` -/
-def staleOps : List Op :=
+def staleOps : List StOp :=
   (List.range 9).flatMap (fun i =>
-    [Op.add ("a" ++ toString i) [("deleteWith", J.arr [.str "x"])] 0,
-     Op.add ("a" ++ toString i) [("k", J.num 1)] 0,
-     Op.rem ("a" ++ toString i) 0])
+    [StOp.add ("a" ++ toString i) [("deleteWith", J.arr [.str "x"])] 0,
+     StOp.add ("a" ++ toString i) [("k", J.num 1)] 0,
+     StOp.rem ("a" ++ toString i) 0])
 
 def isFuelErr {α} : Except LErr α → Bool
   | .error e => e == "fuel"
@@ -75,26 +77,26 @@ theorem fuel_insufficient :
 /-- **cascade_terminates.** With the budget `St.fuelOK s = 6·|facts| + 12 + tiWidth` the recursion of `Rem` never
 runs out of fuel — for both state kinds, every id (present, absent, dangling, variable-looking), and every
 dependency graph (cycles, self-loops, fans, chains). -/
-theorem cascade_terminates (s : St) (now : Int) (hwf : WF s) (hne : NoneExpired s now) (id : String) :
+theorem cascade_terminates (s : St) (now : Int) (id : String) (hwf : WF s) (hne : NoneExpiredBut s id now) :
     (s.remOK id now).2 ≠ .error "fuel" :=
-  remWith_ne_fuel hwf hne id (Nat.le_refl _)
+  remWith_ne_fuel hwf id hne (Nat.le_refl _)
 
 /-- **Fuel monotonicity.** Every budget at least `St.fuelOK s` gives the same state and the same result:
 the budget is a proof device, not part of the behaviour. -/
-theorem cascade_fuel_irrelevant (s : St) (now : Int) (hwf : WF s) (hne : NoneExpired s now) (id : String)
+theorem cascade_fuel_irrelevant (s : St) (now : Int) (id : String) (hwf : WF s) (hne : NoneExpiredBut s id now)
     (g : Nat) (hg : s.fuelOK ≤ g) : s.remWith g id now = s.remOK id now :=
-  remWith_mono hwf hne id hg
+  remWith_mono hwf id hne hg
 
 /-- for the linear state the model's present budget `St.fuel` is already sufficient: `St.rem` is `St.remOK` -/
-theorem rem_linear_budget_ok (s : St) (now : Int) (hwf : WF s) (hk : s.kind = .linear) (hne : NoneExpired s now)
-    (id : String) : s.rem id now = s.remOK id now :=
-  rem_eq_remOK_linear hwf hk hne id
+theorem rem_linear_budget_ok (s : St) (now : Int) (id : String) (hwf : WF s) (hk : s.kind = .linear)
+    (hne : NoneExpiredBut s id now) : s.rem id now = s.remOK id now :=
+  rem_eq_remOK_linear hwf hk id hne
 
 /-- for the indexed state `St.fuel` is sufficient while the longest term-index list is at most `3·|facts|+6`
 (in particular when the index has no stale ids) -/
-theorem rem_indexed_budget_ok (s : St) (now : Int) (hwf : WF s) (hk : s.kind = .indexed) (hne : NoneExpired s now)
-    (hw : tiWidth s.ti ≤ 3 * s.facts.length + 6) (id : String) : s.rem id now = s.remOK id now :=
-  rem_eq_remOK_indexed hwf hk hne hw id
+theorem rem_indexed_budget_ok (s : St) (now : Int) (id : String) (hwf : WF s) (hk : s.kind = .indexed)
+    (hne : NoneExpiredBut s id now) (hw : tiWidth s.ti ≤ 3 * s.facts.length + 6) : s.rem id now = s.remOK id now :=
+  rem_eq_remOK_indexed hwf hk id hne hw
 
 /-! ## well-formedness is an invariant -/
 
@@ -109,7 +111,7 @@ theorem wf_rem (s : St) (hwf : WF s) (id : String) (now : Int) :
 
 /-- **reachable_wf.** Every state reachable from the empty state of either kind by any history of
 `add`/`rem` operations is well-formed. -/
-theorem reachable_wf (k : Kind) (ops : List Op) : WF (St.run { kind := k } ops) :=
+theorem reachable_wf (k : Kind) (ops : List StOp) : WF (St.run { kind := k } ops) :=
   run_wf (wf_empty k) ops
 
 /-- removal never makes a fact expire: `NoneExpired` is preserved by `rem` -/
@@ -123,7 +125,7 @@ theorem noneExpired_rem (s : St) (id : String) (now : Int) (hne : NoneExpired s 
 — the same list, in the same order: the deleted ids are the least set containing `id` and closed under
 "names a deleted id in `deleteWith`" (see `closure_is_closed`/`closure_is_least`), nothing else is deleted —
 and the reported flag says whether `id` itself was stored. -/
-theorem cascade_exact (s s' : St) (now : Int) (id : String) (b : Bool) (hwf : WF s) (hne : NoneExpired s now)
+theorem cascade_exact (s s' : St) (now : Int) (id : String) (b : Bool) (hwf : WF s) (hne : NoneExpiredBut s id now)
     (hid : isVar id = false) (hr : s.remOK id now = (s', .ok b)) :
     s'.facts = specRem s.facts id ∧ b = amHas s.facts id := by
   obtain ⟨D, hD, hgone, hb⟩ := remWith_post hwf hne hid hr
@@ -131,14 +133,14 @@ theorem cascade_exact (s s' : St) (now : Int) (id : String) (b : Bool) (hwf : WF
 
 /-- **Rem does not fail**: in the linear state always, in the indexed state when every stored rule can leave the
 pattern index (`UnindexOK`, see `cascade_aborts_on_unindex_error` for what happens otherwise). -/
-theorem cascade_ok (s : St) (now : Int) (id : String) (hwf : WF s) (hne : NoneExpired s now)
+theorem cascade_ok (s : St) (now : Int) (id : String) (hwf : WF s) (hne : NoneExpiredBut s id now)
     (hid : isVar id = false) (hun : s.kind = .indexed → UnindexOK s) :
     ∃ s' b, s.remOK id now = (s', .ok b) :=
   remWith_ok hwf hne hid hun (Nat.le_refl _)
 
 /-- both state kinds delete the same facts -/
 theorem cascade_kinds_agree (s t s' t' : St) (now : Int) (id : String) (b c : Bool)
-    (hs : WF s) (ht : WF t) (hsn : NoneExpired s now) (htn : NoneExpired t now) (hfacts : s.facts = t.facts)
+    (hs : WF s) (ht : WF t) (hsn : NoneExpiredBut s id now) (htn : NoneExpiredBut t id now) (hfacts : s.facts = t.facts)
     (hid : isVar id = false) (hrs : s.remOK id now = (s', .ok b)) (hrt : t.remOK id now = (t', .ok c)) :
     s'.facts = t'.facts ∧ b = c := by
   obtain ⟨h1, h2⟩ := cascade_exact s s' now id b hs hsn hid hrs
@@ -149,7 +151,7 @@ theorem cascade_kinds_agree (s t s' t' : St) (now : Int) (id : String) (b c : Bo
 
 /-- **cascade_durable.** Every deleted fact id is also removed from storage, and no storage entry outside the
 deleted closure changes (storage is touched only through the ids of the closure). -/
-theorem cascade_durable (s s' : St) (now : Int) (id : String) (b : Bool) (hwf : WF s) (hne : NoneExpired s now)
+theorem cascade_durable (s s' : St) (now : Int) (id : String) (b : Bool) (hwf : WF s) (hne : NoneExpiredBut s id now)
     (hid : isVar id = false) (hr : s.remOK id now = (s', .ok b)) :
     (∀ k, k ∈ closure s.facts [id] → amHas s.facts k = true → amGet s'.store k = none) ∧
     (∀ k, k ∉ closure s.facts [id] → amGet s'.store k = amGet s.store k) := by
@@ -158,10 +160,32 @@ theorem cascade_durable (s s' : St) (now : Int) (id : String) (b : Bool) (hwf : 
   constructor
   · intro k hk hhas
     have hkeys : k ∈ keysOf s.facts := by
-      rw [amHas_eq_isSome] at hhas; exact amGet_isSome_iff.1 hhas
+      rw [amHas_eq_isSome] at hhas; exact amGet_isSome_iff_st.1 hhas
     rw [hD.store, amGet_filterOut, if_pos (hsup k hk hkeys)]
   · intro k hk
     rw [hD.store, amGet_filterOut, if_neg (fun h => hk (hsub k h))]
+
+/-! ## deletion by expiry -/
+
+/-- `NoneExpired` is the special case used for an explicit `Rem` on a state without expired facts -/
+theorem noneExpired_but (s : St) (now : Int) (hne : NoneExpired s now) (id : String) : NoneExpiredBut s id now :=
+  hne.but id
+
+/-- **Deletion triggered by expiry.** `Get id` on a stored fact that has expired (no other stored fact being expired)
+removes it through the same cascade: the result is not-found, exactly `specRem s.facts id` is left, and the storage
+entries of the closure are gone. For the linear state `St.get` (budget `St.fuel`) is this `St.getOK`. -/
+theorem cascade_by_expiry (s : St) (now : Int) (id : String) (fact : Obj) (hwf : WF s)
+    (hg : amGet s.facts id = some fact) (hx : checkExpiration fact now = .ok true)
+    (hne : NoneExpiredBut s id now) (hun : s.kind = .indexed → UnindexOK s) :
+    ∃ s', s.getOK id now = (s', .error "notFound") ∧ s'.facts = specRem s.facts id ∧
+      (∀ k, k ∈ closure s.facts [id] → amHas s.facts k = true → amGet s'.store k = none) ∧
+      (∀ k, k ∉ closure s.facts [id] → amGet s'.store k = amGet s.store k) ∧
+      (s.kind = .linear → s.get id now = s.getOK id now) := by
+  obtain ⟨s', b, hr, hget⟩ := getOK_expired hwf hg hx hne hun
+  have hid : isVar id = false := hwf.ids (id, fact) (amGet_some_mem hg)
+  obtain ⟨h1, h2⟩ := cascade_durable s s' now id b hwf hne hid hr
+  exact ⟨s', hget, (cascade_exact s s' now id b hwf hne hid hr).1, h1, h2,
+    fun hk => get_eq_getOK_linear hwf hk hne⟩
 
 /-! ## a rule that cannot leave the pattern index blocks the cascade (indexed state) -/
 
@@ -170,8 +194,8 @@ def stuckRule : Obj :=
   [("rule", .obj [("schedule", .str "+1h"), ("when", .obj [("a", .arr [.num 1, .str "x"])]),
                   ("action", .obj [("code", .str "1")])])]
 
-def stuckOps : List Op :=
-  [Op.add "r1" stuckRule 0, Op.add "d1" [("deleteWith", J.arr [.str "r1"]), ("k", .str "v")] 0]
+def stuckOps : List StOp :=
+  [StOp.add "r1" stuckRule 0, StOp.add "d1" [("deleteWith", J.arr [.str "r1"]), ("k", .str "v")] 0]
 
 /-- **Negative (confirmed on the real code).** `AddFact` accepts the scheduled rule `stuckRule` in the indexed state
 (scheduled rules are not put into the pattern index), but `RemFact "r1"` then fails with `notSortable` because it
@@ -189,18 +213,18 @@ theorem cascade_aborts_on_unindex_error :
     · cases this
   · have hwf := reachable_wf .linear stuckOps
     have hne : NoneExpired (St.run { kind := .linear } stuckOps) 0 := noneExpired_of_check (by decide +kernel)
-    obtain ⟨s', b, hr⟩ := cascade_ok _ 0 "r1" hwf hne (by decide +kernel) (fun h => by rw [run_kind] at h; cases h)
-    rw [hr, (cascade_exact _ s' 0 "r1" b hwf hne (by decide +kernel) hr).1]
+    obtain ⟨s', b, hr⟩ := cascade_ok _ 0 "r1" hwf (hne.but _) (by decide +kernel) (fun h => by rw [run_kind] at h; cases h)
+    rw [hr, (cascade_exact _ s' 0 "r1" b hwf (hne.but _) (by decide +kernel) hr).1]
     decide +kernel
 
 /-! ## non-vacuity -/
 
 /-- a cycle `a ↔ b`, a self-loop `c` that also names `a`, a fact `d` hanging on the dangling id `zz`,
 and an unrelated fact `e` -/
-def cycleOps : List Op :=
-  [Op.add "a" [("deleteWith", J.arr [.str "b"])] 0, Op.add "b" [("deleteWith", J.arr [.str "a"])] 0,
-   Op.add "c" [("deleteWith", J.arr [.str "c", .str "a"])] 0, Op.add "d" [("deleteWith", J.arr [.str "zz"])] 0,
-   Op.add "e" [("x", J.num 1)] 0]
+def cycleOps : List StOp :=
+  [StOp.add "a" [("deleteWith", J.arr [.str "b"])] 0, StOp.add "b" [("deleteWith", J.arr [.str "a"])] 0,
+   StOp.add "c" [("deleteWith", J.arr [.str "c", .str "a"])] 0, StOp.add "d" [("deleteWith", J.arr [.str "zz"])] 0,
+   StOp.add "e" [("x", J.num 1)] 0]
 
 /-- the hypotheses of the theorems above hold for a non-trivial state of each kind (so `Rem` succeeds), and the
 conclusion is the expected one: deleting `a` deletes `a`, `b`, `c` and keeps `d`, `e`; deleting the dangling id
@@ -216,13 +240,28 @@ example (k : Kind) :
     noneExpired_of_check (by cases k <;> decide +kernel)
   have hun : UnindexOK (St.run { kind := k } cycleOps) := unindexOK_of_check (by cases k <;> decide +kernel)
   refine ⟨hwf, hne, fun _ => hun, ?_, ?_⟩
-  · obtain ⟨s', b, hr⟩ := cascade_ok _ 0 "a" hwf hne (by decide +kernel) (fun _ => hun)
-    obtain ⟨h1, h2⟩ := cascade_exact _ s' 0 "a" b hwf hne (by decide +kernel) hr
+  · obtain ⟨s', b, hr⟩ := cascade_ok _ 0 "a" hwf (hne.but _) (by decide +kernel) (fun _ => hun)
+    obtain ⟨h1, h2⟩ := cascade_exact _ s' 0 "a" b hwf (hne.but _) (by decide +kernel) hr
     refine ⟨s', b, hr, ?_, ?_⟩
     · rw [h1]; cases k <;> decide +kernel
     · rw [h2]; cases k <;> decide +kernel
-  · obtain ⟨s', b, hr⟩ := cascade_ok _ 0 "zz" hwf hne (by decide +kernel) (fun _ => hun)
-    obtain ⟨h1, h2⟩ := cascade_exact _ s' 0 "zz" b hwf hne (by decide +kernel) hr
+  · obtain ⟨s', b, hr⟩ := cascade_ok _ 0 "zz" hwf (hne.but _) (by decide +kernel) (fun _ => hun)
+    obtain ⟨h1, h2⟩ := cascade_exact _ s' 0 "zz" b hwf (hne.but _) (by decide +kernel) hr
     refine ⟨s', b, hr, ?_, ?_⟩
     · rw [h1]; cases k <;> decide +kernel
     · rw [h2]; cases k <;> decide +kernel
+
+/-- a fact `t` that expires at time 5, a dependent `u`, an unrelated `v` -/
+def expiryOps : List StOp :=
+  [StOp.add "t" [("expires", J.num 5), ("k", .num 1)] 0, StOp.add "u" [("deleteWith", J.arr [.str "t"])] 0,
+   StOp.add "v" [("x", J.num 1)] 0]
+
+/-- the hypotheses of `cascade_by_expiry` hold at time 10 for both kinds: `Get "t"` answers not-found and leaves `v` -/
+example (k : Kind) : ∃ s', (St.run { kind := k } expiryOps).getOK "t" 10 = (s', .error "notFound") ∧
+    s'.facts.map (·.1) = ["v"] := by
+  obtain ⟨fact, hg, hx⟩ := expired_of_check (s := St.run { kind := k } expiryOps) (id := "t") (now := 10)
+    (by cases k <;> decide +kernel)
+  obtain ⟨s', h1, h2, _⟩ := cascade_by_expiry _ 10 "t" fact (reachable_wf k expiryOps) hg hx
+    (noneExpiredBut_of_check (by cases k <;> decide +kernel))
+    (fun _ => unindexOK_of_check (by cases k <;> decide +kernel))
+  exact ⟨s', h1, by rw [h2]; cases k <;> decide +kernel⟩
